@@ -109,6 +109,19 @@ pub fn judge(prop: &str, ctx: &mut Ctx, w: &World, st: &St, hist: &[Op], params:
             if prop == "C06" {
                 fee_on_build_only(ctx, w, st, hist, params, cname, method, fin, e);
             }
+            if prop == "C05" && e.contains("Total input and total output are not equal") {
+                // balancing reported success, build_tx finds the imbalance itself - but build() and
+                // build_tx_unsafe() hand the same body out: it is judged like any produced transaction
+                ctx.hit("build_tx-refuses-own-balance");
+                let tbr = &fin.tb;
+                if let Ok(Ok(tx)) = crate::engine::guard(|| tbr.build_tx_unsafe()) {
+                    let bytes = tx.to_bytes();
+                    if let Ok(t) = ledger::parse_tx(&bytes) {
+                        let what = || format!("balancing returned Ok, build_tx refuses ({}), build()/build_tx_unsafe() return the body ; history {:?} finish {:?} config {} tx {}", short(e, 80), hist, method, cname, short(&hx(&bytes), 300));
+                        c05(ctx, w, &t, params, &what);
+                    }
+                }
+            }
             return;
         }
         None => return,
